@@ -146,6 +146,20 @@ def mutate(r, g, insts, per_class=2):
                           with_toks(["(", "BASE", "(", "1", ")", "LEFTY", "(", "'l'", ")", "RIGHTY", "(", "1.", ")", ")"]), iid, False))
             cands.append(("illegal_complex", "unknown part",
                           with_toks(["(", "BASE", "(", "1", ")", "NOSUCH", "(", "'l'", ")", ")"]), iid, False))
+            # an unknown part before, between and after the parts of a legal combination (they are written in alphabetical order)
+            for where_, unk_ in (("first", "AAA_NOSUCH"), ("middle", "FFF_NOSUCH"), ("last", "ZZZ_NOSUCH")):
+                legal_ = [["BASE", "(", "1", ")"], ["EXTRA", "(", ".RED.", ")"], ["LEFTY", "(", "'l'", ")"]]
+                pos_ = {"first": 0, "middle": 2, "last": 3}[where_]
+                parts_ = legal_[:pos_] + [[unk_, "(", "7", ")"]] + legal_[pos_:]
+                cands.append(("unknown_part", "unknown part written %s among the parts of a legal combination" % where_,
+                              with_toks(["("] + [t_ for p_ in parts_ for t_ in p_] + [")"]), iid, False))
+            # the same part twice
+            for dupi_ in (0, 1, 2):
+                legal_ = [["BASE", "(", "1", ")"], ["EXTRA", "(", ".RED.", ")"], ["LEFTY", "(", "'l'", ")"]]
+                second_ = [["BASE", "(", "2", ")"], ["EXTRA", "(", ".BLUE.", ")"], ["LEFTY", "(", "'m'", ")"]][dupi_]
+                parts_ = legal_[:dupi_ + 1] + [second_] + legal_[dupi_ + 1:]
+                cands.append(("duplicate_part", "part %s given twice" % legal_[dupi_][0],
+                              with_toks(["("] + [t_ for p_ in parts_ for t_ in p_] + [")"]), iid, False))
             cands.append(("illegal_complex", "supertype missing",
                           with_toks(["(", "EXTRA", "(", ".RED.", ")", "LEFTY", "(", "'l'", ")", ")"]), iid, False))
             cands.append(("wrong_kind", "complex part value of the wrong kind",
@@ -202,6 +216,8 @@ def mutate(r, g, insts, per_class=2):
             key = c[0] + " " + c[1].split(" (", 1)[1]        # "<kind>) := <bad value>", optional and required apart
         if c[0] in ("too_few_params", "too_many_params") and c[1].split(":")[0] in ("DCARRIER", "LCARRIER", "SI_B", "DPOINT"):
             key = c[0] + " " + c[1].split(":")[0]                # classes with redefining or derived attributes: own path through the attribute loop
+        if c[0] in ("unknown_part", "duplicate_part"):
+            key = c[0] + " " + c[1]                              # each place of the odd part is its own class
         if c[1].startswith("complex part"):
             key = c[0] + " " + c[1]                              # each fault inside an externally mapped instance is its own class
         if c[0] == "ill_typed_reference":
@@ -344,7 +360,7 @@ def main(tier, seed):
                 elif h_[:1] == ["VERIF-CINST"]:
                     cinst.setdefault(int(h_[1]), int(h_[2]))
             for cid, own_ in cown.items():
-                if cid not in cinst:
+                if cid not in cinst or cls == "duplicate_part":      # (the model has no word for a part read twice)
                     continue
                 req = "X %d %s" % (own_, " ".join("%d:%s" % (sv, ",".join(al)) for (_nm, sv, al) in cparts.get(cid, [])))
                 mx = run_model([req])[0].split()
